@@ -655,8 +655,14 @@ func (f *Frame) recursive(fn *ssa.Function) bool {
 	return false
 }
 
-// escapeArgs: a slice handed to unknown code may be modified. Recorded on the root.
-func (f *Frame) escapeArgs(args []AV) {}
+// escapeArgs: a slice handed to code the analysis does not follow may be modified by it.
+func (f *Frame) escapeArgs(args []AV) {
+	for _, a := range args {
+		if s, ok := a.(ASlice); ok && s.root != nil && s.root.fresh && !s.isNil {
+			s.root.extVer++
+		}
+	}
+}
 
 func (f *Frame) symbolicResult(key string, t types.Type) AV {
 	if tup, ok := t.(*types.Tuple); ok {
@@ -681,6 +687,7 @@ func (f *Frame) invoke(x *ssa.Call, key string, args []AV) AV {
 	common := x.Common()
 	name := common.Method.Name()
 	res := f.symbolicResult(key, x.Type())
+	f.escapeArgs(args)
 	// io.Reader contract: Read(p []byte) (n int, err error) has 0 <= n <= len(p)
 	if name == "Read" && len(args) == 1 {
 		if s, ok := args[0].(ASlice); ok {
@@ -1063,7 +1070,7 @@ func (f *Frame) readFresh(root *Root, abs Aff, n int, be bool) (AV, bool) {
 	// reads of the same location with no write in between see the same content
 	var a Aff
 	for i := 0; i < n; i++ {
-		b := f.an.u.sym(fmt.Sprintf("%s[%s]#%d", root.key, abs.addc(int64(i)).String(), len(root.writes)), 0, 255)
+		b := f.an.u.sym(fmt.Sprintf("%s[%s]#%d.%d", root.key, abs.addc(int64(i)).String(), len(root.writes), root.extVer), 0, 255)
 		sh := uint(8 * (n - 1 - i))
 		if !be {
 			sh = uint(8 * i)
@@ -1075,8 +1082,8 @@ func (f *Frame) readFresh(root *Root, abs Aff, n int, be bool) (AV, bool) {
 
 func (f *Frame) readFresh1(root *Root, abs Aff, n int, be bool) (AV, bool) {
 	st := f.state()
-	if len(st) == 0 {
-		return nil, false
+	if len(st) == 0 || root.extVer > 0 {
+		return nil, false // handed to unfollowed code: contents unknown
 	}
 	end := abs.addc(int64(n))
 	var cover *Write
